@@ -7,19 +7,30 @@ import Cose.Driver.SigOps
 import Cose.Driver.EcdhOps
 import Cose.Driver.MsgOps
 import Cose.Driver.DecOps
+import Cose.Driver.IanaOps
 /-!
 Line-protocol driver: one operation per input line, one answer per output line.
 `<family>.<op> arg…` → answer.  Unknown operations answer `unknown-op` (never a default value).
 -/
 open Cose.Driver
 
-def answer (line : String) : String :=
-  match tokens (line.trimAscii.toString) with
+/-- tokens after the last `;;` -/
+def lastSegment (ts : List String) : List String :=
+  ts.foldl (fun acc t => if t == ";;" then [] else acc ++ [t]) []
+
+def answerToks : List String → String
   | [] => ""
   | op :: args =>
-    match (Cwt.dispatch op args <|> CborOps.dispatch op args <|> MapOps.dispatch op args <|> PrimOps.dispatch op args <|> KeyOps.dispatch op args <|> SigOps.dispatch op args <|> EcdhOps.dispatch op args <|> MsgOps.dispatch op args <|> DecOps.dispatch op args) with
+    match (Cwt.dispatch op args <|> CborOps.dispatch op args <|> MapOps.dispatch op args <|> PrimOps.dispatch op args <|> KeyOps.dispatch op args <|> SigOps.dispatch op args <|> EcdhOps.dispatch op args <|> MsgOps.dispatch op args <|> DecOps.dispatch op args <|> IanaOps.dispatch op args) with
     | some r => r
     | none => "unknown-op"
+
+/-- `seq <op A> ;; <op B> …`: the library executes the operations one after the other *on the same key objects*
+    and answers the last one; the model is history-free — the answer is that of the last operation alone. -/
+def answer (line : String) : String :=
+  match tokens (line.trimAscii.toString) with
+  | "seq" :: rest => answerToks (lastSegment rest)
+  | ts => answerToks ts
 
 partial def loop (h : IO.FS.Stream) (out : IO.FS.Stream) : IO Unit := do
   let line ← h.getLine
